@@ -900,7 +900,8 @@ class Explorer:
         if self.paths >= self.max_paths or time.time() > t_end:
           self.inconclusive = "budget exhausted (paths=%d)" % self.paths
           return self
-        if len(self.violations) >= self.max_violations:
+        act = getattr(self, "active", None)
+        if len([v for v in self.violations if act is None or v.aid.split(":")[0] in act]) >= self.max_violations:
           self.inconclusive = None  # stopped early on violations: not exhausted, but conclusive (violated)
           return self
         # pop solver to level k, flip decision k
